@@ -146,3 +146,12 @@ Fixpoint alias_custom_free (s : schema) : bool :=
   | SCustom _ => false
   | _ => true
   end.
+
+Fixpoint arg_acf (a : arg) : bool :=
+  match a with
+  | ASchema s => alias_custom_free s
+  | AList l => forallb (fun x => x) (map (fun x => arg_acf x) l)
+  | ADict d => forallb (fun x => x) (map (fun kx => arg_acf (snd kx)) d)
+  | _ => true
+  end.
+Definition args_acf (args : list arg) : bool := forallb arg_acf args.
